@@ -508,6 +508,13 @@ LIM_QUERIES = [
     ("MATCH (a:N) WITH collect(a.v) AS vs UNWIND vs AS x UNWIND vs AS y RETURN DISTINCT x + y AS s", {}),
     ("UNWIND range(1, $n) AS x RETURN DISTINCT x % 50 AS k", {"n": 1500}),
     ("UNWIND range(1, $n) AS x RETURN sum(x) AS s, min(x) AS lo, max(x) AS hi", {"n": 5000}),
+    # many distinct rows behind small source collections: only the operator's own buffer can hit the limit
+    ("UNWIND range(1, 8) AS a UNWIND range(1, 8) AS b RETURN DISTINCT a, b", {}),
+    ("MATCH (a:N), (b:N) RETURN DISTINCT a.v AS x, b.v AS y", {}),
+    ("UNWIND range(1, 8) AS a RETURN a UNION UNWIND range(9, 16) AS a RETURN a", {}),
+    ("UNWIND range(1, 8) AS a UNWIND range(1, 8) AS b WITH DISTINCT a, b RETURN count(*) AS c, sum(a) AS s", {}),
+    ("UNWIND range(1, 8) AS a UNWIND range(1, 8) AS b RETURN a, b ORDER BY b, a", {}),
+    ("UNWIND range(1, 8) AS a UNWIND range(1, 8) AS b RETURN a, collect(b) AS bs", {}),
 ]
 
 
@@ -521,10 +528,11 @@ def limit_sessions(tier, seed):
             opts = []
             for _ in range(4):
                 opts.append({"max_intermediate_rows": rng.choice([1, 10, 100, 1000, 100000, 500000]),
-                             "max_collection_items": rng.choice([1, 5, 50, 5000, 200000]),
+                             "max_collection_items": rng.choice([1, 5, 10, 20, 50, 5000, 200000]),
                              "max_apply_rows_per_outer": rng.choice([1, 10, 1000, 200000]),
                              "soft_timeout_ms": rng.choice([0, 5000, 5000, 5000])})
             opts.append({"soft_timeout_ms": 1})
+            opts.append({"max_collection_items": rng.choice([10, 20, 30])})
             p = dict(params)
             if rep and "n" in p:
                 p["n"] = max(1, int(p["n"] * rng.choice([0.1, 0.5, 1, 2])))
@@ -839,6 +847,11 @@ def capi_sessions(tier, seed):
         "MATCH (s:Spoke) SET s.p = toBoolean(s.p)",
         "CREATE (a:T) SET a.x = 1 WITH a UNWIND [1, 0] AS d MATCH (h:Hub) WHERE d = 0 DELETE h",
         "THIS IS NOT CYPHER (",
+        "MATCH (l:Lone) REMOVE l.p WITH l MATCH (h:Hub) DELETE h",
+        "MATCH (s:Spoke) SET s.p = null WITH s MATCH (h:Hub) DELETE h",
+        "MATCH (h:Hub)-[r:L]->(s:Spoke) SET s += {p: null, extra: 1} DELETE h",
+        "MATCH (s:Spoke) REMOVE s:Spoke WITH s MATCH (h:Hub) DELETE h",
+        "MATCH (h:Hub)-[r:L]->(s:Spoke) DELETE r WITH h CREATE (:T {v: toBoolean(1)})",
     ]
     ok_a = S(stmt(updates=[u_create(chain([npat("a", ["Ok"], {"n": 1})], []))]))
     ok_b = S(stmt(updates=[u_create(chain([npat("a", ["Ok"], {"n": 2}), npat("b", ["Ok2"])], [("", "K", "out")]))]))
@@ -847,9 +860,13 @@ def capi_sessions(tier, seed):
     # --- C13
     c13 = []
     cid = 0
-    for f in fail_raw:
+    for k, f in enumerate(fail_raw):
         cid += 1
         c13.append({"cid": cid, "kind": "upd", "api": "exec", "query": f, "meta": {"ast": {"parts": [], "updates": []}, "noref": True, "prop": "C13"}})
+        # whatever the failed statement left behind in the engine would ride along with the next commit
+        cid += 1
+        okm = S(stmt(updates=[u_create(chain([npat("m", ["Marker"], {"i": k})], []))]))
+        c13.append(dict(cid=cid, kind="upd", api="exec", query=okm["query"], meta=dict(okm["meta"], prop="C13")))
     cid += 1
     c13.append(dict(cid=cid, kind="upd", api="exec", query=del_hub["query"], meta=dict(del_hub["meta"], prop="C13")))
     for f in fail_raw:
